@@ -296,13 +296,15 @@ def gen_big(rng, nv=None, prefix="v", unit=False):
 # --------------------------------------------------------------------------
 # execution with the real objects
 # --------------------------------------------------------------------------
-def observe(x, kind, rng):
-    """Read-only uses of an object in the middle of a history."""
+def observe(x, kind, rng, store=True):
+    """Read-only uses of an object in the middle of a history.  store=False: only those that leave the process-wide
+    diagram store alone (C07 models the store; a diagram built on the side would be a step of its own)."""
     if kind in ("int", "str"):
         return
     x.tostr()
     if kind == "ineq":
-        for what in rng.sample(["isclause", "tostr", "robdd", "robdd-dec", "post", "post-dec"], rng.choice([1, 2, 3])):
+        uses = ["isclause", "tostr", "robdd", "robdd-dec", "post", "post-dec"] if store else ["isclause", "tostr", "isclause"]
+        for what in rng.sample(uses, rng.choice([1, 2, 3])):
             try:
                 if what == "isclause":
                     x.isclause()
@@ -319,7 +321,7 @@ def observe(x, kind, rng):
                     raise
 
 
-def exec_bind(env, kinds, b, rng):
+def exec_bind(env, kinds, b, rng, store=True):
     """Create the object of binding b from the objects in env (real operators, one of the equivalent spellings)."""
     from tools.rect.pseudobool import Literal, Term, Expr, Ineq
     k = b[0]
@@ -378,7 +380,7 @@ def exec_bind(env, kinds, b, rng):
                 e += o
         return e
     if k == "obs":
-        observe(env[b[1]], kinds[b[1]], rng)
+        observe(env[b[1]], kinds[b[1]], rng, store)
         return None
     raise ValueError(k)
 
